@@ -1757,12 +1757,18 @@ pub mod verif_hooks {
     }
 
     /// The command channel a connection task would serve.
-    pub struct CommandQueue(tokio::sync::mpsc::Receiver<crate::protocol::ProtocolCommand>);
+    ///
+    /// It also holds a strong sender of its own, like the handle of another installed protocol would: the connection
+    /// stays open when this protocol's handle is downgraded.
+    pub struct CommandQueue(
+        tokio::sync::mpsc::Receiver<crate::protocol::ProtocolCommand>,
+        #[allow(dead_code)] tokio::sync::mpsc::Sender<crate::protocol::ProtocolCommand>,
+    );
 
     /// A connection handle and the command channel its connection task would serve.
     pub fn new_connection(connection_id: ConnectionId) -> (ConnectionHandle, CommandQueue) {
         let (tx, rx) = tokio::sync::mpsc::channel(16);
-        (ConnectionHandle::new(connection_id, tx), CommandQueue(rx))
+        (ConnectionHandle::new(connection_id, tx.clone()), CommandQueue(rx, tx))
     }
 
     /// The (substream id, connection id) of the next substream-open command queued on `rx`.
@@ -1773,7 +1779,6 @@ pub mod verif_hooks {
         }
     }
 
-    /// (primary connection id, secondary connection id) the service tracks for `peer`.
     /// The effect of an expired keep-alive timer of this protocol: the connection is downgraded.
     pub fn keep_alive_expired(service: &mut TransportService, peer: PeerId, connection_id: ConnectionId) {
         if let Some(context) = service.connections.get_mut(&peer) {
@@ -1781,6 +1786,7 @@ pub mod verif_hooks {
         }
     }
 
+    /// (primary connection id, secondary connection id) the service tracks for `peer`.
     pub fn connections_of(service: &TransportService, peer: &PeerId) -> Option<(ConnectionId, Option<ConnectionId>)> {
         service.connections.get(peer).map(|context| {
             (*context.primary.connection_id(), context.secondary.as_ref().map(|handle| *handle.connection_id()))
